@@ -566,6 +566,222 @@ theorem C10_restart_rank {ev : Ev St P I V E} {spec : P → I → Outcome V E} {
     simp [testedS, countedS, g4, g5.statsRestarts, initTaskR]
   · rw [solveR, hsol]; exact (closeR_statsLast _ _ _).1
 
+/-- **C10_restart_rank_partial.** Full statement (violated by the code as it is, finding C10-F3):
+    *on acceptance `get_stats("programs")` grew by the rank of the accepted program in the segmented
+    enumeration, whatever the statistics accumulated by earlier tasks*.  Proved under the decidable
+    hypothesis that the repair C10-F3 is in place or that the meta solver's and the sub-solver's
+    counts agree before the task (in a session: no task was closed since the construction of the
+    solver or the last `reset_stats`, see `C10_restart_session_sub`); witness of the violation:
+    `finding_C10_restart_stats_not_cumulative`. -/
+set_option linter.unusedSimpArgs false in
+theorem C10_restart_rank_partial {ev : Ev St P I V E} {spec : P → I → Outcome V E} {Inv : St → Prop}
+    (hF : Faithful ev spec Inv) (prm : Params En P) (k : Kind) (exs : List (I × V)) (fuel : Nat)
+    (s : RSolver P) (st : St) (hst : Inv st) (en : En) (dl as : List Bool)
+    (hyp : prm.fixStats = true ∨ s.self.statsPrograms = s.sub.statsPrograms)
+    (hend : (solveR prm (test k ev exs) fuel s st en dl as).status = .finished .accepted) :
+    ∃ pre e post, segOf prm k spec exs fuel s en = pre ++ e :: post ∧
+      (solveR prm (test k ev exs) fuel s st en dl as).solver.self.statsPrograms =
+        s.self.statsPrograms + (pre.length + 1) ∧
+      (solveR prm (test k ev exs) fuel s st en dl as).solver.statsRestarts =
+        s.statsRestarts + starts (pre ++ [e]).tail := by
+  obtain ⟨pre, e, post, h1, _, _, h4, h5, _⟩ := C10_restart_rank hF prm k exs fuel s st hst en dl as hend
+  refine ⟨pre, e, post, h1, ?_, h5⟩
+  rw [h4]
+  rcases hyp with h | h
+  · simp [statsBase, h, initTaskR, initTask]
+  · cases hfx : prm.fixStats <;> simp [statsBase, hfx, h, initTaskR, initTask]
+
+/-- **C10_restart_timeout.** When the deadline strikes before the entry `e` of the segmented
+    enumeration is tested: what satisfied before was yielded, the task is closed with
+    `get_stats("programs") = statsBase + number of programs tested`, 'restarts' grew by the number
+    of restarts. -/
+theorem C10_restart_timeout {ev : Ev St P I V E} {spec : P → I → Outcome V E} {Inv : St → Prop}
+    (hF : Faithful ev spec Inv) (prm : Params En P) (k : Kind) (exs : List (I × V)) (fuel : Nat)
+    (s : RSolver P) (st : St) (hst : Inv st) (en : En) (dl as : List Bool)
+    (hend : (solveR prm (test k ev exs) fuel s st en dl as).status = .finished .timeout) :
+    ∃ pre e post, segOf prm k spec exs fuel s en = pre ++ e :: post ∧
+      (solveR prm (test k ev exs) fuel s st en dl as).yielded = (pre.map (·.p)).filter (sat spec exs) ∧
+      (solveR prm (test k ev exs) fuel s st en dl as).solver.self.statsPrograms =
+        statsBase prm.fixStats (initTaskR s) + pre.length ∧
+      (solveR prm (test k ev exs) fuel s st en dl as).solver.statsRestarts =
+        s.statsRestarts + starts (pre ++ [e]).tail ∧
+      (solveR prm (test k ev exs) fuel s st en dl as).solver.self.statsLast = some e.p := by
+  have hT := refinesS_of_faithful hF k exs
+  obtain ⟨pre, e, post, hsplit, hsol⟩ :=
+    timeout_specR (prm := prm) hT fuel (initTaskR s) st en 0 dl as hst hend
+  obtain ⟨_, g2, _, g4, g5⟩ := segRun_entry fuel (initTaskR s) en 0 pre e post hsplit
+  obtain ⟨h1, h2, h3, _⟩ := C10_restart_refines hF prm k exs fuel s st hst en dl as Solver.init
+  have hb : (solve (test k ev exs) Solver.init st (segProgs prm k spec exs fuel s en) dl as).status
+      = .finished .timeout := by rw [← h2, hend]; rfl
+  obtain ⟨pre', p', post', he', hy', hs', _⟩ := C10_timeout hF k exs Solver.init st hst _ dl as hb
+  have hprog : (solveR prm (test k ev exs) fuel s st en dl as).solver.self.programs = pre.length := by
+    rw [solveR, hsol, closeR_programs]; simp [g2, initTaskR, initTask]
+  have hprog' : (solve (test k ev exs) Solver.init st (segProgs prm k spec exs fuel s en) dl as).solver.programs
+      = pre'.length := by
+    have := (base_stats (T := test k ev exs) (segProgs prm k spec exs fuel s en) (initTask Solver.init) st dl as).1
+      (Or.inr hb)
+    simp only [solve] at hs' this ⊢
+    rw [hs'] at this
+    simp [initTask, Solver.init] at this ⊢
+    omega
+  have hlen : pre'.length = pre.length := by rw [h3, hprog'] at hprog; omega
+  have hes : segProgs prm k spec exs fuel s en = pre.map (·.p) ++ e.p :: post.map (·.p) := by
+    simp [segProgs, segOf, hsplit]
+  rw [hes] at he'
+  obtain ⟨q1, _⟩ := List.append_inj he' (by simp [hlen])
+  refine ⟨pre, e, post, hsplit, by rw [h1, hy', q1], ?_, ?_, ?_⟩
+  · rw [solveR, hsol, closeR_statsPrograms, statsBase_frame g5]
+    simp [g2, initTaskR, initTask]
+  · rw [solveR, hsol, closeR_statsRestarts]
+    simp [g4, g5.statsRestarts, initTaskR]
+  · rw [solveR, hsol]; exact (closeR_statsLast _ _ _).1
+
+/-- **C10_restart_resume.** Let `p` be the first program of the segmented enumeration that passes the
+    test (those of `pre` are rejected, the clock does not strike up to `p`).  Then `p` is yielded first, and
+      * answering True ends the generator at once (accepted; `C10_restart_rank`: the task is closed),
+      * answering False resumes the search at the next program *of the segmented enumeration* — the
+        next program of the current enumerator, or the first program of the restarted one —: what
+        follows is what `post` gives with the remaining answers and clock,
+      * not answering leaves the generator suspended. -/
+theorem C10_restart_resume {ev : Ev St P I V E} {spec : P → I → Outcome V E} {Inv : St → Prop}
+    (hF : Faithful ev spec Inv) (prm : Params En P) (k : Kind) (exs : List (I × V)) (fuel : Nat)
+    (s : RSolver P) (st : St) (hst : Inv st) (en : En) (dl as : List Bool)
+    (pre : List P) (p : P) (post : List P) (hseg : segProgs prm k spec exs fuel s en = pre ++ p :: post)
+    (hpre : ∀ q ∈ pre, verdict k spec exs q = .ok false) (hp : verdict k spec exs p = .ok true)
+    (hdl : ∀ b ∈ dl.take (pre.length + 1), b = false) :
+    (solveR prm (test k ev exs) fuel s st en dl (true :: as)).yielded = [p] ∧
+    (solveR prm (test k ev exs) fuel s st en dl (true :: as)).status = .finished .accepted ∧
+    (solveR prm (test k ev exs) fuel s st en dl (false :: as)).yielded =
+      p :: specYields (verdict k spec exs) (sat spec exs) post (dl.drop (pre.length + 1)) as ∧
+    (solveR prm (test k ev exs) fuel s st en dl []).yielded = [p] ∧
+    (solveR prm (test k ev exs) fuel s st en dl []).status = .suspended := by
+  obtain ⟨b1, b2, b3, b4, b5⟩ := C10_resume hF k exs Solver.init st hst pre p post dl as hpre hp hdl
+  obtain ⟨t1, t2, _, _⟩ := C10_restart_refines hF prm k exs fuel s st hst en dl (true :: as) Solver.init
+  obtain ⟨f1, _, _, _⟩ := C10_restart_refines hF prm k exs fuel s st hst en dl (false :: as) Solver.init
+  obtain ⟨n1, n2, _, _⟩ := C10_restart_refines hF prm k exs fuel s st hst en dl [] Solver.init
+  rw [hseg] at t1 t2 f1 n1 n2
+  exact ⟨by rw [t1, b1], toBase_accepted (by rw [t2, b2]), by rw [f1, b3], by rw [n1, b4],
+    toBase_suspended (by rw [n2, b5])⟩
+
+/-- **C10_restart_segments.** What the segmented enumeration is.  (1) Its first entry is the first
+    program of the given enumerator.  (2) Every entry is the program at its position of its
+    enumerator's stream, and the solver object then holds: `_programs` = number of entries before,
+    `_data` = the earlier programs of positive score with their scores, in order.  (3) After an entry
+    `a` the next entry `b` is the next program of the same enumerator when the criterion — evaluated on
+    the solver object after the bookkeeping for `a` — does not fire; when it fires, `b` is the first
+    program of the enumerator `restart a.en _data`, `_restarts` is one more and `_last_size` is
+    `len(_data)`. -/
+theorem C10_restart_segments [DecidableEq V] (prm : Params En P) (k : Kind) (spec : P → I → Outcome V E)
+    (exs : List (I × V)) (fuel : Nat) (s : RSolver P) (en : En) :
+    (∀ e post, segOf prm k spec exs fuel s en = e :: post → e.en = en ∧ e.pos = 0) ∧
+    (∀ pre e post, segOf prm k spec exs fuel s en = pre ++ e :: post →
+      prm.stream e.en e.pos = some e.p ∧ e.s.self.programs = pre.length ∧
+      e.s.data = dataOf (pureTest k spec exs) (pre.map (·.p))) ∧
+    (∀ pre a b post, segOf prm k spec exs fuel s en = pre ++ a :: b :: post →
+      ∃ s2 : RSolver P,
+        s2.data = dataOf (pureTest k spec exs) ((pre ++ [a]).map (·.p)) ∧ s2.restarts = a.s.restarts ∧
+        s2.lastSize = a.s.lastSize ∧ s2.self.programs = pre.length + 1 ∧
+        ((prm.criterion s2 = false ∧ b.en = a.en ∧ b.pos = a.pos + 1 ∧ b.s.restarts = a.s.restarts ∧
+            b.s.lastSize = a.s.lastSize) ∨
+         (prm.criterion s2 = true ∧ b.en = prm.restart a.en s2.data ∧ b.pos = 0 ∧
+            b.s.restarts = a.s.restarts + 1 ∧ b.s.lastSize = s2.data.length))) := by
+  refine ⟨?_, ?_, ?_⟩
+  · intro e post h
+    obtain ⟨_, h2, h3, _⟩ := segRun_head h
+    exact ⟨h2, h3⟩
+  · intro pre e post h
+    obtain ⟨g1, g2, g3, _, _⟩ := segRun_entry fuel (initTaskR s) en 0 pre e post h
+    exact ⟨g1, by simpa [initTaskR, initTask] using g2, by simpa [initTaskR] using g3⟩
+  · intro pre a b post h
+    obtain ⟨ok, sc, hta, hb⟩ := segRun_next fuel (initTaskR s) en 0 pre a b post h
+    obtain ⟨_, g2, g3, _, _⟩ := segRun_entry fuel (initTaskR s) en 0 pre a (b :: post) h
+    obtain ⟨s2, q1, _, _, q4, q5, q6, hc⟩ := afterTest_cases prm (testedS a.s sc) a.p a.en (a.pos + 1)
+    refine ⟨s2, ?_, q4, q5, ?_, ?_⟩
+    · rw [q6]
+      simp only [testedS, countedS, g3, initTaskR, List.nil_append, List.map_append, List.map_cons, List.map_nil]
+      simp only [dataOf, List.filterMap_append, List.filterMap_cons, List.filterMap_nil, hta]
+      by_cases hp : 0 < sc.num <;> simp [hp]
+    · rw [q1]; simp [testedS, countedS, g2, initTaskR, initTask]
+    · rcases hc with ⟨c1, c2⟩ | ⟨c1, c2⟩
+      · rw [c2] at hb
+        simp only [Prod.mk.injEq] at hb
+        obtain ⟨e1, e2, e3⟩ := hb
+        exact Or.inl ⟨c1, e2, e3, by rw [e1, q4]; rfl, by rw [e1, q5]; rfl⟩
+      · rw [c2] at hb
+        simp only [Prod.mk.injEq] at hb
+        obtain ⟨e1, e2, e3⟩ := hb
+        exact Or.inr ⟨c1, e2, e3, by rw [e1]; simp [q4, testedS, countedS], by rw [e1]⟩
+
+/-- **C10_restart_no_restart.** With a criterion that never fires, on an enumerator whose stream is
+    the list `es`, given more fuel than `es` has programs, the restart solver behaves exactly like
+    its sub-solver on `es` (section A): same yielded programs, same end (the end of `es` being
+    StopIteration as the code is, a normal end after the repair C10-F2; never out of fuel), same
+    counter, same evaluator state, no restart, and the same `get_stats("programs")` whenever the meta
+    solver's count equals `statsBase` before the task (always, after the repair C10-F3). -/
+theorem C10_restart_no_restart {ev : Ev St P I V E} {spec : P → I → Outcome V E} {Inv : St → Prop}
+    (hF : Faithful ev spec Inv) (prm : Params En P) (k : Kind) (exs : List (I × V)) (fuel : Nat)
+    (s : RSolver P) (st : St) (hst : Inv st) (en : En) (dl as : List Bool)
+    (hc : ∀ s, prm.criterion s = false) (es : List P) (hs : ∀ i, prm.stream en i = es[i]?)
+    (hfuel : es.length < fuel) :
+    (solveR prm (test k ev exs) fuel s st en dl as).yielded = (solve (test k ev exs) s.self st es dl as).yielded ∧
+    (solveR prm (test k ev exs) fuel s st en dl as).status.toBase = (solve (test k ev exs) s.self st es dl as).status ∧
+    (solveR prm (test k ev exs) fuel s st en dl as).status ≠ .outOfFuel ∧
+    (solveR prm (test k ev exs) fuel s st en dl as).solver.self.programs =
+      (solve (test k ev exs) s.self st es dl as).solver.programs ∧
+    (solveR prm (test k ev exs) fuel s st en dl as).st = (solve (test k ev exs) s.self st es dl as).st ∧
+    (solveR prm (test k ev exs) fuel s st en dl as).solver.restarts = 0 ∧
+    (statsBase prm.fixStats (initTaskR s) = s.self.statsPrograms →
+      (solveR prm (test k ev exs) fuel s st en dl as).solver.self.statsPrograms =
+        (solve (test k ev exs) s.self st es dl as).solver.statsPrograms) := by
+  have hT := refinesS_of_faithful hF k exs
+  have hseg : segProgs prm k spec exs fuel s en = cutAtError (pureTest k spec exs) es := by
+    have := segEnum_no_restart_cut (tp := pureTest k spec exs) hc en es hs fuel (initTaskR s) 0
+    simp only [segEnum, List.drop_zero] at this
+    rw [segProgs, segOf, this, List.take_of_length_le (by omega)]
+  obtain ⟨h1, h2, h3, h4⟩ := C10_restart_refines hF prm k exs fuel s st hst en dl as s.self
+  have hcut : solve (test k ev exs) s.self st (segProgs prm k spec exs fuel s en) dl as =
+      solve (test k ev exs) s.self st es dl as := by
+    rw [hseg]; exact base_cut hT es _ st dl as hst
+  rw [hcut] at h1 h2 h3 h4
+  have hclosed : ((solveR prm (test k ev exs) fuel s st en dl as).status = .finished .accepted ∨
+      (solveR prm (test k ev exs) fuel s st en dl as).status = .finished .timeout) ↔
+      ((solve (test k ev exs) s.self st es dl as).status = .finished .accepted ∨
+       (solve (test k ev exs) s.self st es dl as).status = .finished .timeout) := by
+    rw [← h2]
+    constructor
+    · rintro (h | h) <;> rw [h] <;> simp [RStatus.toBase]
+    · rintro (h | h)
+      · exact Or.inl (toBase_accepted h)
+      · exact Or.inr (toBase_timeout h)
+  refine ⟨h1, h2, ?_, h3, h4, ?_, ?_⟩
+  · intro hout
+    have hl := outOfFuel_length (prm := prm) hT fuel (initTaskR s) st en 0 dl as hst hout
+    have hle : (segProgs prm k spec exs fuel s en).length ≤ es.length := by
+      rw [hseg]
+      clear hseg hcut h1 h2 h3 h4 hclosed hs hfuel hl
+      induction es with
+      | nil => simp [cutAtError]
+      | cons p rest ih =>
+        simp only [cutAtError]
+        split <;> simp <;> omega
+    simp only [segProgs, segOf, List.length_map] at hle
+    omega
+  · rw [solveR, no_restart_restarts hc]; rfl
+  · intro hbase
+    by_cases hcl : (solveR prm (test k ev exs) fuel s st en dl as).status = .finished .accepted ∨
+        (solveR prm (test k ev exs) fuel s st en dl as).status = .finished .timeout
+    · have r1 := r_stats (prm := prm) (T := test k ev exs) fuel (initTaskR s) st en 0 dl as hcl
+      have b1 := (base_stats (T := test k ev exs) es (initTask s.self) st dl as).1 (hclosed.mp hcl)
+      simp only [solve, solveR] at r1 b1 h3 ⊢
+      rw [r1, b1, hbase, h3]; rfl
+    · have hfr : Frame (initTaskR s) (solveR prm (test k ev exs) fuel s st en dl as).solver := by
+        apply unclosed_frame
+        · intro h; exact hcl (Or.inl h)
+        · intro h; exact hcl (Or.inr h)
+      have b1 := (base_stats (T := test k ev exs) es (initTask s.self) st dl as).2 (fun h => hcl (hclosed.mpr h))
+      simp only [solve] at b1 ⊢
+      rw [hfr.selfStatsPrograms, b1]; rfl
+
 end restart
 --RESTART-END
 
